@@ -92,7 +92,8 @@ MWEIGHTS = {
     'server_new': 2, 'server_delete': 1, 'server_cap': 3, 'server_attrs': 2,
     'server_traits': 1, 'presence_down': 4, 'presence_up': 4, 'server_state': 3,
     'blacklist': 2, 'group': 3, 'del_group': 1, 'clock': 6, 'cell_event': 1,
-    'integrity': 2, 'restart': 0, 'noop': 1, 'blackout_server': 1, 'partition_schedule': 1,
+    'integrity': 2, 'restart': 0, 'noop': 1, 'blackout_server': 1, 'partition_schedule': 1, 'bucket_new': 1,
+    'stale_finished': 1, 'swap_apps': 1,
 }
 
 
@@ -111,6 +112,8 @@ class MasterDriver:
         self.pf = profile or MProfile()
         self.srv = zkfake.ZkServer(clock=clock.peek)
         self.srv.keep_log = False
+        # a real server lists children in no particular order
+        self.srv.child_order, self.srv.order_salt = 'hash', str(rng.random())
         self.admin = self.srv.client('admin')
         self.node_clients = {}      # server -> client holding its presence node
         self.master = None
@@ -187,18 +190,17 @@ class MasterDriver:
         depth = rng.choice([1, 1, 2])
         self.depth = depth
         self.leaf_parents = []
+        # bucket ids are '<level>:<name>' by convention; a record may instead carry an explicit 'level'
+        self.explicit_levels = rng.random() < 0.3
+        self.n_racks = self.n_pods = 0
         if depth == 1:
-            for r in range(rng.randint(1, 3)):
-                self._bucket('rack:r%d' % r, None)
-                self.leaf_parents.append('rack:r%d' % r)
+            for _ in range(rng.randint(1, 3)):
+                self._new_rack(None)
         else:
-            r = 0
-            for p in range(rng.randint(1, 2)):
-                self._bucket('pod:p%d' % p, None)
+            for _ in range(rng.randint(1, 2)):
+                pod = self._new_pod()
                 for _ in range(rng.randint(1, 2)):
-                    self._bucket('rack:r%d' % r, 'pod:p%d' % p)
-                    self.leaf_parents.append('rack:r%d' % r)
-                    r += 1
+                    self._new_rack(pod)
         self.tenants = ['t%d' % i for i in range(rng.randint(1, 3))]
         self.proids = ['foo', 'bar', 'baz']
         self.appnames = ['%s.app%d' % (p, i) for p in self.proids for i in range(3)]
@@ -211,12 +213,50 @@ class MasterDriver:
         for _ in range(rng.randint(1, 4)):
             self.op_create_apps()
 
-    def _bucket(self, name, parent):
-        self.api.create_bucket(self.admin, name, parent)
+    def _new_rack(self, parent):
+        name = ('r%02d' if self.explicit_levels else 'rack:r%d') % self.n_racks
+        self.n_racks += 1
+        self._bucket(name, parent, 'rack')
+        self.leaf_parents.append(name)
+        return name
+
+    def _new_pod(self):
+        name = ('p%02d' if self.explicit_levels else 'pod:p%d') % self.n_pods
+        self.n_pods += 1
+        self._bucket(name, None, 'pod')
+        return name
+
+    def _bucket(self, name, parent, level):
+        if self.explicit_levels:
+            if self.zkutils.put(self.admin, self.z.path.bucket(name), {'traits': 0, 'parent': parent, 'level': level},
+                                check_content=True):
+                self.api.create_event(self.admin, 0, 'buckets', None)
+        else:
+            self.api.create_bucket(self.admin, name, parent)
         if parent is None:
             self.api.cell_insert_bucket(self.admin, name)
         self.Z['buckets'][name] = parent
-        self.H.buckets[name] = dict(level=name.split(':')[0], parent=parent)
+        self.H.buckets[name] = dict(level=level, parent=parent)
+
+    def op_bucket_new(self):
+        """The topology grows while the master runs: a rack (under an existing pod, or top level) or a pod with a
+        rack is defined ('buckets' event) and inserted into the cell ('cell' event); servers follow."""
+        rng = self.rng
+        if self.master is not None:
+            # the master has handled what was pending before the operator touches the topology (a 'cell' event
+            # handled while /cell already lists a bucket whose 'buckets' event is still queued stops the master
+            # with a KeyError in load_cell: a robustness matter outside the twenty properties, see DESIGN 6)
+            self.settle_delivery()
+        if self.depth == 1:
+            rack = self._new_rack(None)
+        elif rng.random() < 0.5:
+            rack = self._new_rack(self._new_pod())
+        else:
+            pods = sorted(b for b, h in self.H.buckets.items() if h['level'] == 'pod')
+            rack = self._new_rack(rng.choice(pods))
+        self.ops.append(('bucket_new', rack, self.H.buckets[rack]['parent']))
+        for _ in range(rng.randint(1, 2)):
+            self.op_server_new(parent=rack)
 
     # ------------------------------------------------------------------
     # producer-side operations
@@ -238,11 +278,11 @@ class MasterDriver:
                'up_since': int(self.clock.peek()) - rng.choice([0, 3600, 86400 * 3, 86400 * 10, 86400 * 10, 86400 * 17])}
         return rec
 
-    def op_server_new(self):
+    def op_server_new(self, parent=None):
         rng = self.rng
         name = 's%d' % self._next()
         label = rng.choice(self.labels)
-        parent = rng.choice(self.leaf_parents)
+        parent = parent or rng.choice(self.leaf_parents)
         if self.partition_per_rack:
             # partitions laid out along the topology: all servers of a rack belong to one partition
             label = self.rack_label.setdefault(parent, label)
@@ -327,13 +367,14 @@ class MasterDriver:
             self.srv.expire(cl.sid)
         self.ops.append(('server_delete', name))
 
-    def op_server_state(self, name, state, apps):
+    def op_server_state(self, name, state, apps, foreign=()):
         self.lost.pop(name, None)       # an operator's explicit state event supersedes what presence implied
         self.state_event_step[name] = self.step_no
-        self.api.update_server_state(self.admin, name, state, apps)
+        listed = (list(apps or []) + list(foreign)) or None
+        self.api.update_server_state(self.admin, name, state, listed)
         if state == 'frozen':
             self.marks.setdefault(name, set()).update(apps or [])
-        self.ops.append(('server_state', name, state, apps))
+        self.ops.append(('server_state', name, state, listed))
 
     def op_group(self, name, count):
         self.api.update_identity_group(self.admin, name, count)
@@ -602,10 +643,14 @@ class MasterDriver:
             name = rng.choice(servers)
             state = rng.choice(['frozen', 'frozen', 'up', 'down'])
             apps = None
+            foreign = []
             if state == 'frozen':
                 on = self.srv.children(self.z.path.placement(name))
                 apps = [a for a in on if rng.random() < 0.4] or None
-            self.op_server_state(name, state, apps)
+                if rng.random() < 0.3:
+                    # a stale list: it also names instances that are not (or no longer) on this server
+                    foreign = [a for a in sorted(self.Z['apps']) if a not in on and rng.random() < 0.3][:3]
+            self.op_server_state(name, state, apps, foreign)
         elif kind == 'blacklist':
             self.op_blacklist()
         elif kind == 'group':
@@ -625,6 +670,27 @@ class MasterDriver:
             else:
                 self.zkutils.put(self.admin, path, {})
             self.ops.append(('blackout_server', s))
+        elif kind == 'bucket_new' and len(self.H.buckets) < 9:
+            self.op_bucket_new()
+        elif kind == 'stale_finished' and self.Z['apps'] and servers:
+            # a terminal event queued on a host that no longer owns the placement reaches ZooKeeper late:
+            # trace.app.zk.publish rewrites /finished/<instance> naming that host and leaves /scheduled alone
+            a = rng.choice(sorted(self.Z['apps']))
+            rec = {'state': rng.choice(['finished', 'killed', 'aborted']), 'when': self.clock.peek(),
+                   'host': rng.choice(servers), 'data': rng.choice(['0.0', 'oom', None])}
+            self.zkutils.put(self.admin, self.z.path.finished(a), rec)
+            self.ops.append(('stale_finished', a, rec['host']))
+        elif kind == 'swap_apps' and self.Z['apps']:
+            # as many instances deleted as created between two deliveries of /scheduled
+            old = sorted(self.Z['apps'])
+            self.op_create_apps()
+            made = len(self.Z['apps']) - len(old)
+            victims = rng.sample(old, min(len(old), made))
+            if victims:
+                self.api.delete_apps(self.admin, victims)
+                for v in victims:
+                    del self.Z['apps'][v]
+                self.ops.append(('delete_apps', victims))
         elif kind == 'partition_schedule':
             # what cellsync writes when the partition's reboot schedule is (re)declared: a running master
             # never re-reads it, its successor slots the servers of the partition by the new schedule
@@ -686,7 +752,7 @@ class MasterDriver:
         # arrival order after a restart is the order apps are listed in
         self.batch += 1
         for i, n in enumerate(self.srv.children(z.SCHEDULED)):
-            self.app_batch[n] = (self.batch, i)
+            self.app_batch[n] = (self.batch, 0)      # listed in no particular order: instances a new master finds together arrive together
         self.sync_H()
         return t_lo, t_hi
 
